@@ -253,3 +253,6 @@ def decide_inconclusive(obs, results, cases):
     if obs.get('pairs_with_rejection', 0) == 0 or obs.get('pairs_ooo', 0) == 0:
         return 'no differential pair had a preprocessor rejection / an out-of-order completion'
     return None
+
+
+RULE = RULE + '; results that are exception objects; submissions that raise; failing calls of the four parmappers raise 7 classes incl. StopIteration (normalised: it cannot travel as itself)'
